@@ -8,6 +8,7 @@ import (
 	"math/big"
 	"os"
 	"sort"
+	"strings"
 	"time"
 
 	"golang.org/x/tools/go/ssa"
@@ -78,6 +79,7 @@ type Options struct {
 }
 
 func NewShared(prog *ssa.Program, solver *smt.Solver, stubs map[string]*ssa.Function) *Shared {
+	installThreadIntrinsics()
 	return &Shared{
 		Prog:      prog,
 		Globals:   map[*ssa.Global]*Object{},
@@ -118,11 +120,18 @@ func Run(sh *Shared, fn *ssa.Function, opt Options) *Result {
 			rnd:      opt.Seed,
 			locks:    map[string]int{},
 			onceDone: map[string]bool{},
+			mlocks:   map[string]*lockState{},
+			condGen:  map[string]int{},
+			wgCount:  map[string]int{},
 		}
 		if len(prefix) == 0 {
 			in.model = map[string]*big.Int{}
 		}
 		pr := in.runPath(fn)
+		in.killThreads()
+		if len(in.ts.trace) > 0 && pr.Msg != "" {
+			pr.Msg += " schedule=" + strings.Join(in.ts.trace, ",")
+		}
 		pr.ID = pathID
 		pathID++
 		res.Paths = append(res.Paths, pr)
